@@ -123,7 +123,8 @@ def run(ctx):
         silent = byz if sc.get("byz_mode", "silent") == "silent" else []
         consts = (f"  Crashed = {{{', '.join(map(str, crashed))}}}\n"
                   f"  SilentByz = {{{', '.join(map(str, silent))}}}\n"
-                  f"  StableFrom = {sc['gst'] + sc['chaos'] + 1000}\n  EndT = {sc['run_ms']}\n  Margin = 3500\n  RequireFast = {'TRUE' if fast else 'FALSE'}\n")
+                  f"  StableFrom = {sc['gst'] + sc['chaos'] + 1000}\n  EndT = {sc['run_ms']}\n  Margin = 3500\n  RequireFast = {'TRUE' if fast else 'FALSE'}\n"
+                  f"  Starved = {{{', '.join(map(str, summary.get('starved_slots', [])))}}}\n")
         cfg_extra = consts
         # vacuity: some window must be judged
         import re
